@@ -185,6 +185,9 @@ type scWorld struct {
 	entryBlocks map[string]map[string]bool
 	removed     map[string]bool // keys whose version map was dropped by StateCache.Remove
 	outOfOrder  bool            // some block was committed after one of its children
+	commitSeq   map[string]int  // hash -> number of commits that had taken effect when it was committed
+	lateDup     bool            // a block was committed again when at least maxHisDepth other commits had followed its first
+	                            // commit (its link may have been evicted, so the second commit may take effect)
 	node        bool // value tokens are trie-node encodings
 	mutate      bool // scribble over every value handed in or out (C07)
 	strict      bool // C07 publish: a miss where a value is expected is a failure while no capacity is exceeded
@@ -202,7 +205,7 @@ type scWorld struct {
 
 func newSCWorld(res *CaseResult) *scWorld {
 	return &scWorld{sc: statecache.NewStateCache(), T: map[string]*scBlock{}, bh: map[string]*scBH{}, th: map[string]*scTH{},
-		entryBlocks: map[string]map[string]bool{}, removed: map[string]bool{}, res: res, tags: map[string]bool{}}
+		entryBlocks: map[string]map[string]bool{}, removed: map[string]bool{}, commitSeq: map[string]int{}, res: res, tags: map[string]bool{}}
 }
 
 func hashOf(tok string) string {
@@ -298,6 +301,7 @@ func (w *scWorld) withinCapacity(key string) bool {
 const (
 	findingEviction = "C06-capacity-eviction"
 	findingRemove   = "C06-remove-out-of-order"
+	findingRecommit = "C06-recommit-after-remove"
 )
 
 // judge compares a lookup result with the expectation.
@@ -323,6 +327,8 @@ func (w *scWorld) judge(out string, x scExpect, key, stateBlk string, throughSta
 				w.setFinding(findingEviction)
 			} else if throughState && w.removed[key] && w.outOfOrder {
 				w.setFinding(findingRemove)
+			} else if throughState && w.removed[key] && w.lateDup {
+				w.setFinding(findingRecommit)
 			} else {
 				w.setFinding("")
 			}
@@ -396,8 +402,13 @@ func (w *scWorld) commitBlock(b *scBH) {
 func (w *scWorld) recordCommit(b *scBH) {
 	if _, dup := w.T[b.hash]; dup {
 		w.tags["commit:duplicate"] = true
+		if w.commits-w.commitSeq[b.hash] >= scMaxDepth {
+			w.lateDup = true
+			w.tags["commit:duplicate-after-link-loss"] = true
+		}
 		return
 	}
+	w.commitSeq[b.hash] = w.commits
 	for _, x := range w.T {
 		if x.prev == b.hash && b.hash != "" {
 			w.outOfOrder = true // a child of this block is already committed
